@@ -710,3 +710,209 @@ Proof.
   - destruct (oret (snd (step c s (OExecDie p w keys n0)))) eqn:R; try reflexivity.
     apply G. intros k Hk KD. apply exec_die_gone; auto.
 Qed.
+
+(* ------------------------------------------------------------------ clause (B): served from the cache *)
+Lemma In_find_ukeys k e d : ukeys d -> In (k, e) d -> find k d = Some e.
+Proof.
+  unfold ukeys. induction d as [|[k' e'] d IH]; cbn; [contradiction|].
+  intros U [H|H].
+  - inversion H. subst. rewrite key_eqb_refl. reflexivity.
+  - inversion U as [|? ? Hn U']. subst. destruct (key_eqb k k') eqn:E; [|apply IH; auto].
+    apply key_eqb_eq in E. subst. exfalso. apply Hn. change k' with (fst (k', e)). apply in_map. exact H.
+Qed.
+
+(* what the previous observed contents say about a key is what the model's store holds *)
+Lemma dget_lookup s d k v t :
+  deq (dump s) d -> ukeys (cache s) -> dget d k = Some (v, t) ->
+  exists e, lookup (clock s) (cache s) k = Some e /\ eval e = v.
+Proof.
+  intros Hd U H. apply dget_In in H. apply (deq_In d (dump s)) in H; [|symmetry; exact Hd].
+  apply dump_In_cache in H. destruct H as (e & Hi & Lv & Ev). exists e. split; [|exact Ev].
+  apply lookup_intro; [apply In_find_ukeys; auto | exact Lv].
+Qed.
+
+Lemma In_dget_some l k v t : In (k, v, t) l -> dget l k <> None.
+Proof.
+  induction l as [|[[k' v'] t'] l IH]; cbn; [contradiction|].
+  destruct (key_eqb k k') eqn:E; [discriminate|].
+  intros [H|H]; [inversion H; subst; rewrite key_eqb_refl in E; discriminate | apply IH; exact H].
+Qed.
+
+Lemma lookup_dget s d k e :
+  deq (dump s) d -> lookup (clock s) (cache s) k = Some e -> dget d k <> None.
+Proof.
+  intros Hd L. destruct (lookup_in_dump s k e L) as [t Ht]. apply (deq_In _ d) in Ht; [|exact Hd].
+  eapply In_dget_some; eauto.
+Qed.
+
+(* the operation leaves the state alone and runs no query *)
+Definition quiet (c : config) (s : state) (o : op) : Prop :=
+  fst (step c s o) = s /\ oqi (snd (step c s o)) = 0 /\ oqp (snd (step c s o)) = 0.
+
+Lemma quiet_of_eq c s o m : step c s o = (s, m) -> oqi m = 0 -> oqp m = 0 -> quiet c s o.
+Proof. intros E A B. unfold quiet. rewrite E. auto. Qed.
+
+Lemma quiet_take c s p t e :
+  key_down c s (KP p) = false -> lookup (clock s) (cache s) (KP p) = Some e -> (forall q, eval e <> CPk q) ->
+  quiet c s (OTake p t).
+Proof. intros K L T. eapply quiet_of_eq; [apply (take_served c s p t e K L T)| |]; reflexivity. Qed.
+
+Lemma quiet_takemid c s p t n e :
+  key_down c s (KP p) = false -> lookup (clock s) (cache s) (KP p) = Some e -> (forall q, eval e <> CPk q) ->
+  quiet c s (OTakeMid p t n).
+Proof.
+  intros K L T. destruct (quiet_take c s p t e K L T) as (A & B & C).
+  unfold quiet. cbn [step] in *. unfold take_mid. rewrite K, L. auto.
+Qed.
+
+Lemma quiet_get c s p : quiet c s (OGet p).
+Proof. unfold quiet. cbn [step]. unfold get_primary. split_step; cbn; auto. Qed.
+
+Lemma quiet_qri_hole c s u t e :
+  key_down c s (KU u) = false -> lookup (clock s) (cache s) (KU u) = Some e -> eval e = CHole ->
+  quiet c s (OQri u t).
+Proof. intros K L E. eapply quiet_of_eq; [apply (qri_served_hole c s u t e K L E)| |]; reflexivity. Qed.
+
+Lemma quiet_qrimid_hole c s u t n e :
+  key_down c s (KU u) = false -> lookup (clock s) (cache s) (KU u) = Some e -> eval e = CHole ->
+  quiet c s (OQriMid u t n).
+Proof.
+  intros K L E. unfold quiet. cbn [step]. unfold query_index_mid. rewrite K, L.
+  destruct e as [[a b|q|] x]; cbn in E; try discriminate. cbn. auto.
+Qed.
+
+Lemma quiet_qri_row c s u t e p e' :
+  key_down c s (KU u) = false -> lookup (clock s) (cache s) (KU u) = Some e -> eval e = CPk p ->
+  key_down c s (KP p) = false -> lookup (clock s) (cache s) (KP p) = Some e' -> (forall q, eval e' <> CPk q) ->
+  quiet c s (OQri u t).
+Proof.
+  intros K L E K' L' T. eapply quiet_of_eq; [apply (qri_served_row c s u t e p e' K L E K' L' T)| |]; reflexivity.
+Qed.
+
+Lemma quiet_qrimid_row c s u t n e p e' :
+  key_down c s (KU u) = false -> lookup (clock s) (cache s) (KU u) = Some e -> eval e = CPk p ->
+  key_down c s (KP p) = false -> lookup (clock s) (cache s) (KP p) = Some e' -> (forall q, eval e' <> CPk q) ->
+  quiet c s (OQriMid u t n).
+Proof.
+  intros K L E K' L' T. destruct (quiet_takemid c s p t n e' K' L' T) as (A & B & C).
+  unfold quiet. cbn [step] in *. unfold query_index_mid. rewrite K, L.
+  destruct e as [[a b|q|] x]; cbn in E; try discriminate. inversion E. subst. auto.
+Qed.
+
+Lemma served_ok c r s o ob :
+  deq (dump s) (r_prev r) -> sagree c s o ob -> quiet c s o -> no_query ob && untouched r ob = true.
+Proof.
+  intros D (_ & A2 & A3 & A4) (Q1 & Q2 & Q3). unfold no_query. rewrite <- A2, <- A3, Q2, Q3. cbn.
+  apply (untouched_intro r s (fst (step c s o)) ob D); [rewrite Q1; reflexivity | exact A4].
+Qed.
+
+Lemma is_answer_inv x : is_answer x = true -> exists v t, x = Some (v, t) /\ (forall q, v <> CPk q).
+Proof.
+  destruct x as [[[a b|q|] t]|]; cbn; try discriminate; intros _; eexists; eexists; split; try reflexivity; discriminate.
+Qed.
+
+Lemma down_key_down c r s k : r_cf r = cfault s -> down c r k = key_down c s k.
+Proof. intro C. unfold down. rewrite C. reflexivity. Qed.
+
+Lemma clauseB_sound c r s o ob :
+  linked3 r s -> NoDup (map dkey (o_dump ob)) -> sagree c s o ob -> served c r (norm o) ob = true.
+Proof.
+  intros (L & F & C & K & U & D) _ SA.
+  assert (P : forall p, negb (down c r (KP p)) && is_answer (dget (r_prev r) (KP p)) = true ->
+              key_down c s (KP p) = false /\
+              exists e, lookup (clock s) (cache s) (KP p) = Some e /\ (forall q, eval e <> CPk q)).
+  { intros p H. apply andb_true_iff in H. destruct H as [H1 H2]. rewrite (down_key_down c r s _ C) in H1.
+    apply negb_true_iff in H1. split; [exact H1|].
+    apply is_answer_inv in H2. destruct H2 as (v & t & H2 & H3).
+    destruct (dget_lookup s _ _ _ _ D K H2) as (e & Le & Ee). exists e. split; [exact Le|]. rewrite Ee. exact H3. }
+  assert (I : forall u, down c r (KU u) = false -> forall v t, dget (r_prev r) (KU u) = Some (v, t) ->
+              key_down c s (KU u) = false /\ exists e, lookup (clock s) (cache s) (KU u) = Some e /\ eval e = v).
+  { intros u H v t G. rewrite (down_key_down c r s _ C) in H. split; [exact H|]. apply (dget_lookup s _ _ _ _ D K G). }
+  destruct o; cbn [norm served]; try reflexivity.
+  - destruct (negb (down c r (KP p)) && is_answer (dget (r_prev r) (KP p))) eqn:H; [|reflexivity].
+    destruct (P p H) as (K1 & e & Le & Te). eapply served_ok; eauto. eapply quiet_take; eauto.
+  - destruct (down c r (KU u)) eqn:Dn; [reflexivity|].
+    destruct (dget (r_prev r) (KU u)) as [[[a b|q|] t0]|] eqn:G; try reflexivity.
+    + destruct (negb (down c r (KP q)) && is_answer (dget (r_prev r) (KP q))) eqn:H; [|reflexivity].
+      destruct (I u Dn _ _ G) as (K1 & e & Le & Ee). destruct (P q H) as (K2 & e' & Le' & Te').
+      eapply served_ok; eauto. eapply quiet_qri_row; eauto.
+    + destruct (I u Dn _ _ G) as (K1 & e & Le & Ee). eapply served_ok; eauto. eapply quiet_qri_hole; eauto.
+  - eapply served_ok; eauto. apply quiet_get.
+  - destruct (negb (down c r (KP p)) && is_answer (dget (r_prev r) (KP p))) eqn:H; [|reflexivity].
+    destruct (P p H) as (K1 & e & Le & Te). eapply served_ok; eauto. eapply quiet_takemid; eauto.
+  - destruct (down c r (KU u)) eqn:Dn; [reflexivity|].
+    destruct (dget (r_prev r) (KU u)) as [[[a b|q|] t0]|] eqn:G; try reflexivity.
+    + destruct (negb (down c r (KP q)) && is_answer (dget (r_prev r) (KP q))) eqn:H; [|reflexivity].
+      destruct (I u Dn _ _ G) as (K1 & e & Le & Ee). destruct (P q H) as (K2 & e' & Le' & Te').
+      eapply served_ok; eauto. eapply quiet_qrimid_row; eauto.
+    + destruct (I u Dn _ _ G) as (K1 & e & Le & Ee). eapply served_ok; eauto. eapply quiet_qrimid_hole; eauto.
+Qed.
+
+(* ------------------------------------------------------------------ summary *)
+(* the clauses of [Check.check_op] that are tied to the model: (A) coherence with F7's exemption,
+   (B) served from the cache, (C) database errors / one query, (F) invalidation *)
+Definition covered_op (c : config) (r : rstate) (o : op) (ob : opobs) : bool :=
+  coherent true r (norm o) ob && served c r (norm o) ob && db_errors r (norm o) ob && invalidated c r o ob.
+
+(* ... and they are four of the eight conjuncts of the judgement of one operation *)
+Lemma check_op_decomposes c f11 r o ob :
+  check_op c true f11 r o ob
+  = covered_op c r o ob && (fail_fast_mid c r o ob && ttls c f11 r o ob && kept r o ob && retried c r o ob).
+Proof.
+  unfold check_op, covered_op.
+  destruct (coherent true r (norm o) ob), (served c r (norm o) ob), (db_errors r (norm o) ob),
+    (fail_fast_mid c r o ob), (ttls c f11 r o ob), (invalidated c r o ob), (kept r o ob), (retried c r o ob); reflexivity.
+Qed.
+
+Lemma clauseA_sound c r s o ob :
+  linked3 r s -> NoDup (map dkey (o_dump ob)) -> sagree c s o ob -> coherent true r (norm o) ob = true.
+Proof.
+  intros L _ (A1 & _). pose proof (linked3_linked2 r s L) as L2.
+  destruct (primary_read o) eqn:P; [eapply coherent_primary_sound; eauto; apply L2|].
+  destruct (index_read o) eqn:I; [eapply coherent_index_sound; eauto|].
+  apply coherent_other; auto.
+Qed.
+
+Lemma covered_sound c r s o ob :
+  linked3 r s -> NoDup (map dkey (o_dump ob)) -> sagree c s o ob -> covered_op c r o ob = true.
+Proof.
+  intros L U A. unfold covered_op.
+  rewrite (clauseA_sound c r s o ob L U A), (clauseB_sound c r s o ob L U A),
+    (clauseC_sound c r s o ob L U A), (clauseF_sound c r s o ob L U A). reflexivity.
+Qed.
+
+Section PerClause.
+Variable w : wcase.
+Hypothesis ND : NoDup (map fst (c_rows w)).
+Hypothesis DU : dumps_unique (c_obs w).
+Hypothesis AG : agrees1 w = true.
+
+Let r0 := mkR (c_rows w) false [] [] true [] (init (c_rows w)).
+
+Lemma agreed_history_satisfies (Q : config -> rstate -> op -> opobs -> bool) :
+  (forall c r s o ob, linked3 r s -> NoDup (map dkey (o_dump ob)) -> sagree c s o ob -> Q c r o ob = true) ->
+  holds_from Q (c_cfg w) (c_cfg2 w) (c_inst w) r0 (c_ops w) (c_obs w) = true.
+Proof.
+  intro H. eapply (agreed_holds_from Q H); [apply init_linked3; exact ND | exact DU | exact AG].
+Qed.
+
+Lemma agreed_history_satisfies_clause_A :
+  holds_from (fun c r o ob => coherent true r (norm o) ob) (c_cfg w) (c_cfg2 w) (c_inst w) r0 (c_ops w) (c_obs w) = true.
+Proof. apply agreed_history_satisfies. exact clauseA_sound. Qed.
+
+Lemma agreed_history_satisfies_clause_B :
+  holds_from (fun c r o ob => served c r (norm o) ob) (c_cfg w) (c_cfg2 w) (c_inst w) r0 (c_ops w) (c_obs w) = true.
+Proof. apply agreed_history_satisfies. exact clauseB_sound. Qed.
+
+Lemma agreed_history_satisfies_clause_C :
+  holds_from (fun c r o ob => db_errors r (norm o) ob) (c_cfg w) (c_cfg2 w) (c_inst w) r0 (c_ops w) (c_obs w) = true.
+Proof. apply agreed_history_satisfies. exact clauseC_sound. Qed.
+
+Lemma agreed_history_satisfies_clause_F :
+  holds_from (fun c r o ob => invalidated c r o ob) (c_cfg w) (c_cfg2 w) (c_inst w) r0 (c_ops w) (c_obs w) = true.
+Proof. apply agreed_history_satisfies. exact clauseF_sound. Qed.
+
+Lemma agrees_implies_covered :
+  holds_from covered_op (c_cfg w) (c_cfg2 w) (c_inst w) r0 (c_ops w) (c_obs w) = true.
+Proof. apply agreed_history_satisfies. exact covered_sound. Qed.
+End PerClause.
